@@ -530,3 +530,15 @@ Proof.
     rewrite G2. unfold abs, first_index, w1. cbn [st_segs st_tail tail_last].
     rewrite Hsegs, Htail. cbn [tail_last]. rewrite Hrc. reflexivity.
 Qed.
+
+(* what GetLog reads is what the abstract log holds *)
+Lemma raw_get_spec c w d ss t tw idx :
+  WInvS c w d ss t tw -> raw_get w idx d = spec_get (abs w d) idx.
+Proof.
+  intros HI. destruct (raw_get w idx d) as [l|] eqn:Er.
+  - destruct (raw_get_sound _ _ _ _ _ _ _ _ HI Er) as (s & Hs & Hmin & Hmax & Hnth).
+    destruct (seg_lookup_abs _ _ _ _ _ _ _ _ _ HI Hs Hmin Hmax Hnth) as [Hget _]. symmetry. exact Hget.
+  - destruct (spec_get (abs w d) idx) as [l|] eqn:Eg; [|reflexivity]. exfalso.
+    destruct (covering _ _ _ _ _ _ _ _ HI Eg) as (s & Hs & Hmin & Hmax).
+    destruct (raw_get_complete _ _ _ _ _ _ _ _ HI Hs Hmin Hmax) as [_ Hnn]. congruence.
+Qed.
